@@ -1,7 +1,7 @@
 (* C06 — property theorems only: pinned statement, `exact`, Print Assumptions. *)
 From Coq Require Import List NArith Bool.
 Import ListNotations.
-From L4 Require Import Common.FSRoll Model.Rolling Proofs.Rolling Proofs.RollingStream.
+From L4 Require Import Common.FSRoll Model.Rolling Model.RollingFail Proofs.Rolling Proofs.RollingStream Proofs.RollingFail.
 Local Open Scope N_scope.
 
 (* At every policy consultation of every history — any trigger (size,
@@ -59,6 +59,37 @@ Theorem C06_after_append_bounded :
 Proof. exact after_append_bounded. Qed.
 Print Assumptions C06_after_append_bounded.
 
+(* Histories in which some appends hit a FAILING roller (Model/RollingFail.v:
+   the trigger fires, the writer slot is emptied, roller.roll returns Err and
+   leaves the directory untouched, `append` returns Err): still at every
+   consultation the length shown is the on-disk size — in particular after the
+   reopen that follows a failed roll. *)
+Theorem C06_len_is_disk_size_failing_rolls :
+  forall c a0 pre ops,
+    Forall (fun e => match e with EConsult shown disk _ => shown = disk | _ => True end)
+           (concat (map fst (snd (xrun c a0 pre ops)))).
+Proof. exact len_is_disk_size_x. Qed.
+Print Assumptions C06_len_is_disk_size_failing_rolls.
+
+(* One more append after any such history, size trigger, roller working or
+   failing: the record is written, the policy is consulted exactly once with the
+   true size after the write, a rotation is requested iff it exceeds the limit
+   (not deferred by an earlier failed roll); with a failing roller the call
+   returns Err exactly then and the over-limit file stays in place. *)
+Theorem C06_size_append_exact_failing_rolls :
+  forall limit rl s chunks,
+    let c := {| trig := TSize limit; roll_by := rl |} in
+    (exists pre ops, s = fst (xrun_ops c ops (raw pre))) ->
+    let sz := disk_len (files s) + blen (concat chunks) in
+    let evs := [EWrote (concat chunks); EConsult sz sz (limit <? sz)] in
+    snd (append_op c chunks s) = evs
+    /\ snd (fst (append_op_fail c chunks s)) = evs
+    /\ snd (append_op_fail c chunks s) = (limit <? sz)
+    /\ lookup (files (fst (fst (append_op_fail c chunks s)))) Active
+       = Some (content (files s) Active ++ concat chunks).
+Proof. exact size_append_exact_x. Qed.
+Print Assumptions C06_size_append_exact_failing_rolls.
+
 (* `reach` is exactly "state after some history over some initial directory". *)
 Theorem C06_reach_is_history :
   forall c s, reach c s <-> exists pre ops, s = fst (run_ops c ops (raw pre)).
@@ -81,4 +112,14 @@ Example C06_example_limit0 :
   let r := run c false (Some [97;98]) [Append [[]]; Append [[49]]] in
   lookup (files (fst r)) Active = None
   /\ snd r = [[ETrunc]; [EWrote []; EConsult 0 0 false]; [EWrote [49]; EConsult 1 1 true]].
+Proof. vm_compute. split; reflexivity. Qed.
+
+(* limit 3, roller fails at the second append (5 > 3 bytes): Err, file kept; the
+   next append is shown 6 = the true size and rotates *)
+Example C06_example_failing_roll :
+  let c := {| trig := TSize 3; roll_by := Window 0 1 |} in
+  let r := xrun c true None [XOp (Append [[49;50]]); XAppendFail [[51;52;53]]; XOp (Append [[54]])] in
+  map (fun n => lookup (files (fst r)) n) [Active; Arch 0] = [None; Some [49;50;51;52;53;54]]
+  /\ snd r = [([], false); ([EWrote [49;50]; EConsult 2 2 false], false);
+              ([EWrote [51;52;53]; EConsult 5 5 true], true); ([EWrote [54]; EConsult 6 6 true], false)].
 Proof. vm_compute. split; reflexivity. Qed.
